@@ -16,7 +16,7 @@ from bctmc.tally import Tally
 PROPERTY = 'C03'
 RULE = ('every free tree on 8 nodes under the scan orders of bctmc/trees.py (951 labelled trees, 0/1); a fixed family of ~100 structured graphs on 7-10 nodes (bctmc/named.py: paths, cycles, stars, wheels, cliques, '
         'bipartite, ladders, trees, unions with isolated nodes, DAGs, tournaments; binary, lengths {1,2},{1,2,3}, near-tie) and '
-        'every labelled digraph / undirected graph of the stated families (binary n<=4 dir, n<=5 und, and the five-node digraphs with <= 8 connections (thorough: all 2^20) for distance_bin/breadthdist/reachdist; '
+        'every labelled digraph / undirected graph of the stated families (binary n<=4 dir, n<=5 und, and the five-node digraphs with <= 8 connections (thorough: all 2^20) for distance_bin/breadthdist/reachdist (reachdist with ensure_binary True and False); '
         'lengths {1,2,3} and the near-tie alphabet {1, 2, 2+2^-20} (1+1 is shorter than 2+2^-20 by less than any common tolerance) on 3-node digraphs and 4-node graphs; weights {1,1/2,1/4} for inv/log; thorough adds '
         'lengths {1,2} on all 4-node digraphs and 5-node graphs, binary n=6 und, n=5 dir with <=... see families '
         'counter); non-trivial = graph with an unreachable ordered pair and a pair at distance >= 2 hops, or '
@@ -177,8 +177,9 @@ def check_lengths(t, case, L, floyd_arg, transform, binary, wei_arg=None):
         out = call(t, 'distance_bin', case, bct.distance_bin, L)
         if out is not None:
             cmp_matrix(t, 'distance_bin', 'distance', case, out, D)
-        for fname in ('breadthdist', 'reachdist'):
-            out = call(t, fname, case, getattr(bct, fname), L)
+        for fname, f in (('breadthdist', bct.breadthdist), ('reachdist', bct.reachdist),
+                         ('reachdist', lambda A: bct.reachdist(A, ensure_binary=False))):
+            out = call(t, fname, case, f, L)
             if out is not None:
                 R, Dd = out
                 cmp_matrix(t, fname, 'distance', case, Dd, D, offdiag_only=True)
@@ -203,8 +204,9 @@ def check_reach(t, case, X):
     out = call(t, 'distance_bin', case, bct.distance_bin, X)
     if out is not None:
         cmp_matrix(t, 'distance_bin', 'distance', case, out, D)
-    for fname in ('breadthdist', 'reachdist'):
-        out = call(t, fname, case, getattr(bct, fname), X)
+    for fname, f in (('breadthdist', bct.breadthdist), ('reachdist', bct.reachdist),
+                     ('reachdist', lambda A: bct.reachdist(A, ensure_binary=False))):
+        out = call(t, fname, case, f, X)
         if out is not None:
             R, Dd = out
             cmp_matrix(t, fname, 'distance', case, Dd, D, offdiag_only=True)
